@@ -16,7 +16,7 @@
 //   A <slot> <keyspec-hex> <desc-hex> [opt...]
 //   C <kind> <spec-hex>              all_of any_of one_of differ disjoint
 //   B                                addBracketHandler( counting lambdas) on the current handler
-//   SG <keyspec-hex> <flags>         start a sub-group handler (following A lines define its arguments) ... SE ends it
+//   SG <keyspec-hex> <flags> [opt..] start a sub-group handler (options mand / card=... apply to the sub-group argument) (following A lines define its arguments) ... SE ends it
 //   SGT <slot> <keyspec-hex>         add-try of a sub-group argument whose handler has the single argument -z (slot)
 //   AF <keyspec-hex>                 addArgumentFile( spec); "@HOME@" in an argv word is replaced by the scratch home directory
 //   N <hex>                          checkEnvVarArgs( name)
@@ -590,7 +590,8 @@ static void runScenario(const Scenario& sc, uint64_t idx)
          {
             if (!cur) { single.reset(new Handler(out, err, 0)); cur = single.get(); }
             subs.emplace_back(new Handler(*cur, atoi(t[2].c_str())));
-            cur->addArgument(unhexf(t[1]), *subs.back(), "sub group");
+            TypedArgBase* sga = cur->addArgument(unhexf(t[1]), *subs.back(), "sub group");
+            for (size_t i = 3; i < t.size(); ++i) applyOpt(sga, nullptr, t[i], *cur);     // mand, card=...
             parent = cur;
             cur = subs.back().get();
          }
